@@ -177,7 +177,7 @@ def run(tier, seed):
     rnd = random.Random(seed)
     scns = scenarios()
     chk.machine_family("builtins-enumerated", scns, features=features)
-    chk.machine_family("identity-after-clear-and-chained-definitions-with-cuts", identity_and_chain_scenarios(), {"must_complete": True}, features=features)
+    chk.machine_family("identity-after-clear-and-chained-definitions-with-cuts", identity_and_chain_scenarios(), features=features, opts_list=[{"must_complete": True}, {"must_complete": True, "mode": "qnil"}])
     n = 800 if tier == "quick" else 10000
     rs = [gen.random_scenario(rnd, {"meta", "ctl", "dyn", "rich"}, nclauses=3, depth=rnd.choice([2, 3])) for _ in range(n)]
     for i in range(0, n, 4000):
